@@ -40,7 +40,11 @@ var watchCfgs = []watchCfg{
 	{"256GiB-default", g256, unset},          // last scaled volume
 }
 
+// errReading: the statfs call of that tick fails (EIO): the reading says nothing about the space left
+const errReading = ^uint64(0)
+
 type watchWorld struct {
+	stopped  string // the watcher went down with this panic (fail-stop on a failing statfs)
 	cfg      watchCfg
 	in       pairInfo
 	alphabet []uint64
@@ -49,7 +53,7 @@ type watchWorld struct {
 }
 
 func watchAlphabet(c watchCfg, in pairInfo) []uint64 {
-	cand := []uint64{c.Total, in.floor - 1, in.floor, in.ceil, in.ceil + 1}
+	cand := []uint64{c.Total, in.floor - 1, in.floor, in.ceil, in.ceil + 1, errReading}
 	var out []uint64
 	for _, v := range cand {
 		dup := false
@@ -70,6 +74,9 @@ func watchAnswer(path string, st *syscall.Statfs_t) error {
 	}
 	i := vsched.Choose("c18.reading", len(w.alphabet))
 	w.seq = append(w.seq, w.alphabet[i])
+	if w.alphabet[i] == errReading {
+		return syscall.EIO
+	}
 	reading.total, reading.free = w.cfg.Total, w.alphabet[i]
 	return statfsAnswer(path, st)
 }
@@ -87,17 +94,42 @@ func watchScenario(c watchCfg) *vsched.Scenario {
 		w = &watchWorld{cfg: c, in: in, alphabet: watchAlphabet(c, in)}
 		x.Data = w
 	}
-	sc.Body = func() { watchers.WatchDiskSpace(jobPath, watchInterval) }
+	sc.Body = func() {
+		defer func() {
+			if r := recover(); r != nil {
+				w.stopped = fmt.Sprint(r) // judged at the end: going down on a failing statfs is fail-stop, anything else is not
+			}
+		}()
+		watchers.WatchDiskSpace(jobPath, watchInterval)
+	}
 	sc.Horizon = watchTicks*watchInterval + time.Second
-	sc.OKEnds = []string{vsched.EndHorizon}
+	sc.OKEnds = []string{vsched.EndHorizon, vsched.EndDone, vsched.EndQuiescent}
 	sc.AtEnd = func(x *vsched.Exec) error {
 		if len(w.seq) > len(w.paused) {
 			w.paused = append(w.paused, pause.IsPaused())
 		}
-		if len(w.seq) != watchTicks {
+		if w.stopped != "" {
+			// the watcher went down: acceptable only on the tick whose statfs failed (the crawler stops: nothing runs on)
+			if n := len(w.seq); n == 0 || w.seq[n-1] != errReading || !strings.Contains(w.stopped, "disk stats") {
+				return fmt.Errorf("sig=via-WatchDiskSpace:watcher-panics|readings=%v: the watcher went down with %q", w.seq, w.stopped)
+			}
+		} else if len(w.seq) != watchTicks {
 			return fmt.Errorf("sig=via-WatchDiskSpace:tick-count|%d disk readings in %v of virtual time, expected %d", len(w.seq), sc.Horizon, watchTicks)
 		}
 		for i, f := range w.seq {
+			if f == errReading {
+				// a failing statfs says nothing about the space left: the guard's state must not change on it
+				// (or the crawler goes down, judged above)
+				before := false
+				if i > 0 {
+					before = w.paused[i-1]
+				}
+				if w.stopped == "" && w.paused[i] != before {
+					return fmt.Errorf("sig=via-WatchDiskSpace:statfs-failure-changes-the-guard:paused=%v->%v|total=%d min-space-required=%v readings=%v (%d = statfs fails): after tick %d the pipeline went from paused=%v to paused=%v although nothing was learnt about the volume",
+						before, w.paused[i], c.Total, c.MS, w.seq, errReading, i+1, before, w.paused[i])
+				}
+				continue
+			}
 			want := mustRefuse(f, w.in.thr)
 			if w.paused[i] == want {
 				continue
